@@ -21,6 +21,19 @@ func verifList(tag string, max int) ([]string, bool) {
 	return out, bad
 }
 
+// verifParseBlocklists calls ParseBlocklists whether or not it reports errors
+// (the method had no result before the repair of finding C19-F1).
+func verifParseBlocklists(c *RegConfig) error {
+	var x interface{} = c
+	if f, ok := x.(interface{ ParseBlocklists() error }); ok {
+		return f.ParseBlocklists()
+	}
+	if f, ok := x.(interface{ ParseBlocklists() }); ok {
+		f.ParseBlocklists()
+	}
+	return nil
+}
+
 // VerifC19Blocklists: every configured block/allow-list entry is enforced - an
 // entry that cannot be parsed must not be dropped silently.  Symbolic lists of
 // up to two entries each, plus the lists of the shipped app_config.toml.
@@ -41,11 +54,19 @@ func VerifC19Blocklists() {
 		c.PhantomBlocklist, bad[2] = verifList("phantom", 1)
 		verifnd.Finding("C19-F1", bad[0] || bad[1] || bad[2])
 	}
-	c.ParseBlocklists() // (has no error return: a dropped entry cannot be reported)
-	verifnd.Assert(len(c.covertBlocklistSubnets) == len(c.CovertBlocklistSubnets), "C19.every-covert-blocklist-entry-enforced")
-	verifnd.Assert(len(c.covertAllowlistSubnets) == len(c.CovertAllowlistSubnets), "C19.every-covert-allowlist-entry-enforced")
-	verifnd.Assert(len(c.phantomBlocklist) == len(c.PhantomBlocklist), "C19.every-phantom-blocklist-entry-enforced")
-	verifnd.Assert(c.enableCovertAllowlist == (len(c.CovertAllowlistSubnets) > 0), "C19.allowlist-in-force-iff-configured")
+	err := verifParseBlocklists(c)
+	if err == nil {
+		// an accepted configuration: every entry is enforced
+		verifnd.Assert(len(c.covertBlocklistSubnets) == len(c.CovertBlocklistSubnets), "C19.every-covert-blocklist-entry-enforced")
+		verifnd.Assert(len(c.covertAllowlistSubnets) == len(c.CovertAllowlistSubnets), "C19.every-covert-allowlist-entry-enforced")
+		verifnd.Assert(len(c.phantomBlocklist) == len(c.PhantomBlocklist), "C19.every-phantom-blocklist-entry-enforced")
+		verifnd.Assert(c.enableCovertAllowlist == (len(c.CovertAllowlistSubnets) > 0), "C19.allowlist-in-force-iff-configured")
+		verifnd.Reach("C19.blocklists.accepted")
+	} else {
+		// the load may fail only because of an entry that is not a well-formed CIDR
+		verifnd.Assert(bad[0] || bad[1] || bad[2], "C19.load-fails-only-for-an-unparsable-entry")
+		verifnd.Reach("C19.blocklists.refused")
+	}
 	verifnd.Reach("C19.blocklists.done")
 }
 
@@ -71,7 +92,7 @@ func VerifC19Reload() {
 		if verifnd.Bool("geoip-configured") {
 			nc.DBConfig = &geoip.DBConfig{CCDBPath: "/nonexistent/cc.mmdb", ASNDBPath: "/nonexistent/asn.mmdb"}
 		}
-		nc.ParseBlocklists()
+		_ = verifParseBlocklists(nc)
 		before := rm.PhantomSelector
 		rm.OnReload(nc)
 		// phantom subnets: the modelled loader yields an EMPTY selector, or fails
